@@ -16,13 +16,16 @@ Extractors are registered per property in EXTRACTORS below (properties without a
   C15            Gen/Scales.lean      LOG_TO_PHRED_FACTOR, PHRED_TO_LOG_FACTOR, the `ln_1m_exp` switch point
                                       (stats/probs/mod.rs); COEFF_0..4, ONEBYLOG2, OFFSET_F64, FRACTION_F64,
                                       MIN_VAL (utils/fastexp.rs) — decimal literals as exact rationals
-  C01 C02 C16    Gen/Limits.lean      MIN_SCORE (pairwise/mod.rs, poa.rs), MAX_CELLS, DEFAULT_MATCH_SCORE (banded.rs)
+  C01 C02 C16    Gen/Limits.lean      MIN_SCORE (pairwise/mod.rs, poa.rs), MAX_CELLS, DEFAULT_MATCH_SCORE (banded.rs) and
+                                      the number the doc comment of banded::Aligner states for MAX_CELLS ("currently set to …")
   C01 C02        Gen/TbCodes.lean     I_POS, D_POS, S_POS, TB_* (pairwise/mod.rs), the 0b1111 field mask
   C03 C04        Gen/Occ.lean         the `self.k > 64` threshold in `Occ::get` (data_structures/bwt.rs)
 
-For C01/C02/C16 the theorem modules over the generated files (RbV.Thm.GenLimits, RbV.Thm.GenTbCodes) are not (yet)
-imported by the property's own theorem file, so this script builds them itself (`lake build <module>`; it runs under
-the orchestrator's lake lock) and fails when they no longer check.
+RbV/Thm/C01.lean and RbV/Thm/C02.lean import RbV.Thm.GenLimits / RbV.Thm.GenTbCodes and restate their theorems as
+property theorems, and the C01/C02 spec/reference files (`Spec/Align.lean` `minScore`, `Ref/Banded.lean` `maxCells`) are
+defined by the generated constants: the orchestrator's own `lake build` re-checks them.  For C16 the theorem module
+RbV.Thm.GenLimits is not (yet) imported by the property's own theorem file, so this script builds it itself
+(`lake build <module>`; it runs under the orchestrator's lake lock) and fails when it no longer checks.
 
 `--json` additionally prints one line `gen_tables-json: [...]` describing every generated file (lean file, source
 files with the sha256 of their text and of the extracted snippets) for the evidence (docs/notes/GEN.md).
@@ -73,8 +76,13 @@ THEOREMS = {
                "RbV.Thm.C15.fastexp_exponent_field_in_range"],
     "Limits": ["RbV.Thm.GenLimits.min_score_pairwise_eq_poa", "RbV.Thm.GenLimits.two_min_scores_no_i32_overflow",
                "RbV.Thm.GenLimits.min_score_range", "RbV.Thm.GenLimits.min_score_headroom",
-               "RbV.Thm.GenLimits.max_cells_pos_and_default_match_pos"],
-    "TbCodes": ["RbV.Thm.GenTbCodes.tb_codes_distinct", "RbV.Thm.GenTbCodes.tb_codes_le_max",
+               "RbV.Thm.GenLimits.max_cells_pos_and_default_match_pos",
+               "RbV.Thm.C01.min_score_is_source_constant", "RbV.Thm.C01.two_min_scores_no_i32_overflow",
+               "RbV.Thm.C01.min_score_headroom", "RbV.Thm.C02.cell_budget_is_source_constant",
+               "RbV.Thm.C02.cell_budget_positive", "RbV.Thm.C02.sentinel_score_is_source_min_score",
+               "RbV.Thm.C02.two_min_scores_no_i32_overflow"],
+    "TbCodes": ["RbV.Thm.C01.tb_* and RbV.Thm.C02.tb_* (restatements of the following)",
+                "RbV.Thm.GenTbCodes.tb_codes_distinct", "RbV.Thm.GenTbCodes.tb_codes_le_max",
                 "RbV.Thm.GenTbCodes.tb_max_fits_field", "RbV.Thm.GenTbCodes.tb_fields_disjoint",
                 "RbV.Thm.GenTbCodes.tb_get_after_set", "RbV.Thm.GenTbCodes.tb_set_preserves_other_fields",
                 "RbV.Thm.GenTbCodes.tb_set_fits_cell", "RbV.Thm.GenTbCodes.tb_set_all"],
@@ -510,6 +518,13 @@ def gen_limits(repo):
     if len(g) != 1:
         fail("%s: expected exactly one guard `if self.band.num_cells() > MAX_CELLS {`, found %d" % (relb, len(g)))
     b_.snippets["MAX_CELLS guard"] = g[0]
+    # the number the documentation states for the budget ("… less than MAX_CELLS (currently set to 10 million) …")
+    doc_cells, doc_text = documented_max_cells(b_.raw, relb)
+    if doc_text is not None:
+        b_.snippets["MAX_CELLS doc"] = doc_text
+    if doc_cells is not None and doc_cells != max_cells:
+        note("the doc comment of banded.rs says MAX_CELLS is %d, the constant is %d: case `c02 docbudget` rejects "
+             "(known finding C02-doc-budget for exactly 10000000 / 5000000)" % (doc_cells, max_cells))
     if min_pw != min_poa:
         note("MIN_SCORE differs: pairwise %d, poa %d: min_score_pairwise_eq_poa will fail" % (min_pw, min_poa))
     for nm, v in (("pairwise", min_pw), ("poa", min_poa)):
@@ -526,6 +541,9 @@ def gen_limits(repo):
         "def minScorePoa : Int := %s\n\n" % lean_int(min_poa) +
         "/-- `const MAX_CELLS: usize` of `" + relb + "`, used in the guard `if self.band.num_cells() > MAX_CELLS` -/\n"
         "def maxCells : Nat := %d\n\n" % max_cells +
+        "/-- the value the doc comment of `banded::Aligner` states for the budget (`MAX_CELLS (currently set to …)`);\n"
+        "`none` when the documentation names the constant only -/\n"
+        "def maxCellsDocumented : Option Nat := %s\n\n" % ("none" if doc_cells is None else "some %d" % doc_cells) +
         "/-- `const DEFAULT_MATCH_SCORE: i32` of `" + relb + "` -/\n"
         "def defaultMatchScore : Int := %s\n\n" % lean_int(dflt) +
         "/-- width in bits of the score type (`i32`; the extraction fails when the declared type changes) -/\n"
@@ -536,6 +554,56 @@ def gen_limits(repo):
         for k, v in s.snippets.items():
             snippets[pre + k] = v
     emit("Limits", "C01,C02,C16", text, [(relm, m_.raw), (relb, b_.raw), (relq, q_.raw)], snippets)
+
+
+DOC_PHRASE = "MAX_CELLS (currently set to "
+DOC_UNITS = {"": 1, "thousand": 10 ** 3, "million": 10 ** 6, "billion": 10 ** 9}
+
+
+def flatten_comments(raw):
+    """the text with the comment leaders `///`, `//!`, `//` at line starts removed and all white space collapsed
+    (the same normalisation as `doc_budget` in harness/src/c02.rs, which reads the compiled source text)"""
+    words = []
+    for ln in raw.splitlines():
+        t = ln.strip()
+        for lead in ("///", "//!", "//"):
+            if t.startswith(lead):
+                t = t[len(lead):]
+                break
+        words.extend(t.split())
+    return " ".join(words)
+
+
+def documented_max_cells(raw, rel):
+    """(value, snippet) of `MAX_CELLS (currently set to <number> [thousand|million|billion])`; (None, None) when the
+    documentation does not state a number.  Several statements must agree; an unreadable number is an extraction failure."""
+    flat = flatten_comments(raw)
+    vals, texts, pos = [], [], 0
+    while True:
+        i = flat.find(DOC_PHRASE, pos)
+        if i < 0:
+            break
+        j = flat.find(")", i)
+        if j < 0:
+            fail("%s: `%s…` without closing parenthesis" % (rel, DOC_PHRASE))
+        inner = flat[i + len(DOC_PHRASE):j].split()
+        m = re.fullmatch(r"([0-9][0-9_,]*)(?:\.([0-9]+))?", inner[0]) if inner else None
+        unit = inner[1] if len(inner) == 2 else ""
+        if not m or len(inner) > 2 or unit not in DOC_UNITS:
+            fail("%s: documented value of MAX_CELLS `%s` is not `<number> [thousand|million|billion]`"
+                 % (rel, flat[i + len(DOC_PHRASE):j][:60]))
+        frac = m.group(2) or ""
+        num = int(re.sub(r"[_,]", "", m.group(1)) + frac) * DOC_UNITS[unit]
+        if num % (10 ** len(frac)) != 0:
+            fail("%s: documented value of MAX_CELLS `%s` is not a whole number" % (rel, " ".join(inner)))
+        vals.append(num // (10 ** len(frac)))
+        texts.append(flat[i:j + 1])
+        pos = j
+    if not vals:
+        return None, None
+    if len(set(vals)) > 1:
+        fail("%s: the documentation states different values for MAX_CELLS: %s" % (rel, ", ".join(map(str, vals))))
+    return vals[0], " | ".join(texts)
 
 
 TB_NAMES = ["TB_START", "TB_INS", "TB_DEL", "TB_SUBST", "TB_MATCH", "TB_XCLIP_PREFIX", "TB_XCLIP_SUFFIX",
@@ -695,8 +763,11 @@ EXTRACTORS = {
     "C20": [gen_complement],
     "C17": [gen_dna2int],
     "C15": [gen_scales],
-    "C01": [gen_limits, gen_tbcodes, verify_modules(["RbV.Thm.GenLimits", "RbV.Thm.GenTbCodes"])],
-    "C02": [gen_limits, gen_tbcodes, verify_modules(["RbV.Thm.GenLimits", "RbV.Thm.GenTbCodes"])],
+    # C01/C02: Thm/C01.lean and Thm/C02.lean import RbV.Thm.GenLimits / GenTbCodes and restate their theorems, and
+    # Spec/Align.lean / Ref/Banded.lean are defined by the generated constants, so the orchestrator's `lake build`
+    # re-checks everything (no separate build here)
+    "C01": [gen_limits, gen_tbcodes],
+    "C02": [gen_limits, gen_tbcodes],
     "C16": [gen_limits, verify_modules(["RbV.Thm.GenLimits"])],
     "C03": [gen_occ],
     "C04": [gen_occ],
